@@ -58,12 +58,17 @@ def block_names(op):
         if not asm:
             continue
         short = k.split("/")[-1].split(":")[-1]
-        for i in range(len(AJ.cut_blocks(asm[".code"]))):
-            names.append("%s_initial_block_%d" % (short, i))
-        for dk, dv in asm.get(".data", {}).items():
-            if isinstance(dv, dict) and ".code" in dv:
-                for i in range(len(AJ.cut_blocks(dv[".code"]))):
-                    names.append("%s_run_code_of_%s_block_%d" % (short, dk, i))
+        # same enumeration order as AJ.code_sections (which pairs_of uses); nested sub-assemblies are kept verbatim by the
+        # tool and have no block names: placeholders keep the indices aligned
+        for path, code in AJ.code_sections(asm):
+            nb = len(AJ.cut_blocks(code))
+            parts = path.split("/")
+            if path == "/.code":
+                names += ["%s_initial_block_%d" % (short, i) for i in range(nb)]
+            elif len(parts) == 4:          # /.data/<k>/.code
+                names += ["%s_run_code_of_%s_block_%d" % (short, parts[2], i) for i in range(nb)]
+            else:
+                names += ["<nested:%s#%d>" % (path, i) for i in range(nb)]
     return names
 
 
@@ -73,6 +78,21 @@ def build_ops(spec):
     backend = "-greedy" if i % 5 else "solver"
     op = C.build_pipe_op(spec, backend=backend, profile="nasty" if i % 2 == 0 else None,
                          peer_kinds=["optimal", "optimal", "no_model"])
+    if i % 13 == 7 and backend == "-greedy":
+        # deep-stack bait: blocks that touch 17..20 stack values (the greedy back-end must give up cleanly where
+        # no DUP/SWAP reaches, never emit an instruction that does not exist)
+        deep = []
+        for _ in range(rf.choice([1, 2, 3])):
+            deep += rf.choice([[("SWAP1", None), ("POP", None), ("SWAP16", None)], [("SWAP16", None), ("POP", None), ("SWAP16", None)],
+                               [("DUP16", None), ("SWAP16", None), ("POP", None), ("POP", None), ("DUP16", None)],
+                               [("SWAP15", None), ("SWAP1", None), ("POP", None), ("SWAP16", None), ("SWAP2", None)],
+                               [("POP", None), ("POP", None), ("DUP16", None), ("SWAP16", None)]])
+        flags = [a for a in op["argv"][1:] if a not in ("-bl", "-single-json")]
+        desc = op["desc"]
+        other = C.parse_bl_input("PUSH1 0x1 DUP2 ADD PUSH1 0x0 MSTORE PUSH1 0x5 JUMP")
+        op = C.bl_op([other, deep + [("PUSH", "7"), ("JUMP", None)], other], flags)
+        op["desc"] = desc
+        op["fmt"] = "bl"
     if i % 13 == 5 and backend == "-greedy":
         # sharing bait: a chain of (DUP1, op) pairs builds a term DAG of linear size and exponential tree size
         k = rf.choice([6, 9, 11]) if spec["tier"] == "quick" else rf.choice([8, 11, 16, 22])
@@ -89,7 +109,8 @@ def build_ops(spec):
     if i % 3 != 0 and names:
         twin = json.loads(json.dumps(op))
         kind = rf.choice(["persistent", "persistent", "nth", "io", "io"])
-        victim_idx = rf.randrange(len(names))
+        cand = [k for k, nm in enumerate(names) if not nm.startswith("<nested")]
+        victim_idx = rf.choice(cand)
         victim = names[victim_idx]
         fault = {"kind": kind, "victim": victim, "victim_idx": victim_idx}
         if kind == "persistent":
